@@ -231,8 +231,13 @@ static void run_trial(int idx)
 		m->ds = dispatch_source_create(DISPATCH_SOURCE_TYPE_TIMER, 0, vf_rnd_n(&r, 4) == 0 ? DISPATCH_TIMER_STRICT : 0, t->qs[m->qi]);
 		if (!m->ds) vf_fail("dispatch_source_create(TIMER) failed");
 		dispatch_set_context(m->ds, m);
-		dispatch_source_set_event_handler_f(m->ds, timer_handler);
-		dispatch_source_set_cancel_handler_f(m->ds, timer_cancel_handler);
+		if (vf_rnd_n(&r, 3) == 0) {
+			dispatch_source_set_event_handler(m->ds, ^{ timer_handler(m); });
+			dispatch_source_set_cancel_handler(m->ds, ^{ timer_cancel_handler(m); });
+		} else {
+			dispatch_source_set_event_handler_f(m->ds, timer_handler);
+			dispatch_source_set_cancel_handler_f(m->ds, timer_cancel_handler);
+		}
 		m->rearm_left = (int)vf_rnd_n(&r, 4);
 		m->must_fire = 1;
 		program_timer(m, &r, 1);
